@@ -1,10 +1,11 @@
 """C01 — lane property: word-level mechanism theorems over Gen_dqstate (+ site lists) and the stress oracle."""
 import lanes
+from props import c01_root
 
 PROPERTIES_FILE = "Properties/Properties_C01.v"
-COQ_DEPS = ["Proofs/Lane_iface.vo", "Proofs/SLane_progress.vo"]
-EXTRA_PROPERTIES_FILES = ["Properties/Properties_C01_slane.v"]
-GEN_MODULES = ["Gen_dqstate", "Gen_lanesites", "Gen_once"]
+COQ_DEPS = ["Proofs/Lane_iface.vo", "Proofs/SLane_progress.vo", "Proofs/SLane_measure.vo"] + list(c01_root.COQ_DEPS)
+EXTRA_PROPERTIES_FILES = ["Properties/Properties_C01_slane.v", c01_root.PROPERTIES_FILE]
+GEN_MODULES = ["Gen_dqstate", "Gen_lanesites", "Gen_once"] + list(c01_root.GEN_MODULES)
 LEVEL = "proof"
 TRUSTED = [
     "PARTIAL: (a) word-level theorems about the dq_state transition bodies / atomic site lists translated from the source on every "
@@ -18,9 +19,14 @@ TRUSTED = [
 ASSUMPTIONS = ["the stress oracle explores the schedules the OS and the perturbation hook produce; absence of a failure there is not a proof"]
 
 
+TRUSTED += ["root queue / thread pool part (Properties_C01_root.v): " + t for t in c01_root.TRUSTED]
+ASSUMPTIONS += list(c01_root.ASSUMPTIONS)
+
+
 def correspond(ctx):
-    return lanes.run(ctx, "C01")
+    return lanes.merge([lanes.run_part("lanes", lambda c: lanes.run(c, "C01"), ctx),
+                        lanes.run_part("root", c01_root.correspond, ctx)])
 
 
 def replay(ctx, obj):
-    return lanes.replay(ctx, obj)
+    return lanes.replay_parts(ctx, obj, {"lanes": lanes.replay, "root": c01_root.replay})
